@@ -75,6 +75,8 @@ structure ImageDs where
   totalOrigin : Option (Rat × Rat × Option Rat) := none
   /-- ImageOrientationSlide -/
   oriSlide : List Rat := []
+  /-- FrameOfReferenceUID, if present (read by `for_images`) -/
+  frameOfReference : Option String := none
   deriving Repr, Inhabited
 
 /-- what `get_image_coordinate_system` looks at: the keywords present at the root of the dataset, which of the present
@@ -223,14 +225,23 @@ def refToImgForImage (ds : ImageDs) (frameNumber : Option Int) (forTotal : Bool)
   let c := Gen.refToImgForImage s.1 s.2.1 s.2.2.1 (s.2.2.2.getD Gen.refToImgForImageDefaultSliceSpacing)
   refToImgAffine c.1 c.2.1 (.seq c.2.2.1) (c.2.2.2.getD Gen.invAffineDefaultSpacingBetweenSlices)
 
-/-- `PixelToPixelTransformer.for_images` for two datasets that share a frame of reference -/
+/-- the two tests every `for_images` starts with (statement order and ValueError pinned by TC10g): both datasets have a
+FrameOfReferenceUID, and it is the same one -/
+def sameFrameOfReference (dsF dsT : ImageDs) : Except ErrKind Unit :=
+  match dsF.frameOfReference, dsT.frameOfReference with
+  | some a, some b => if a ≠ b then .error .value else .ok ()
+  | _, _ => .error .value
+
+/-- `PixelToPixelTransformer.for_images` -/
 def pixToPixForImages (dsF dsT : ImageDs) (frameF frameT : Option Int) (totalF totalT : Bool) : Except ErrKind Aff := do
+  sameFrameOfReference dsF dsT
   let f ← getSpatialInformation dsF frameF totalF
   let t ← getSpatialInformation dsT frameT totalT
   let c := Gen.pixToPixForImages f.1 f.2.1 f.2.2.1 t.1 t.2.1 t.2.2.1
   pixToPixAffine c.1 c.2.1 (.seq c.2.2.1) c.2.2.2.1 c.2.2.2.2.1 (.seq c.2.2.2.2.2)
 
 def imgToImgForImages (dsF dsT : ImageDs) (frameF frameT : Option Int) (totalF totalT : Bool) : Except ErrKind Aff := do
+  sameFrameOfReference dsF dsT
   let f ← getSpatialInformation dsF frameF totalF
   let t ← getSpatialInformation dsT frameT totalT
   let c := Gen.imgToImgForImages f.1 f.2.1 f.2.2.1 t.1 t.2.1 t.2.2.1
